@@ -3,6 +3,7 @@ import EgVerif.Proofs.RateLimiterExt
 import EgVerif.Proofs.RateLimiterFilter
 import EgVerif.Gen.FactsC09
 import EgVerif.Proofs.RateLimiterIR
+import EgVerif.Proofs.RateLimiterIRb
 /-!
 # C09 — the rate limiter never releases more than `limitForPeriod` per period
 
@@ -512,10 +513,97 @@ theorem filter_source_facts :
       "policy.TimeoutDuration = 100 * time.Millisecond", "policy.LimitRefreshPeriod = 10 * time.Millisecond"] ∧
     Gen.FactsC09.resultRateLimited = "rateLimited" ∧
     Gen.FactsC09.handleStatusCodes = ["http.StatusTooManyRequests"] ∧
-    Gen.FactsC09.handleAcquireCalls = 1 ∧
+    -- (one `AcquirePermission` per request, on the first matching rule: `handle_regenerated_from_source`;
+    -- the count of the printed callee `u.rl.AcquirePermission` that stood here alarmed on a rename of `u`)
     Gen.FactsC09.reloadSharesLimiter = 1 ∧ Gen.FactsC09.reloadClearsPrev = 0 ∧
     Gen.FactsC09.multiLocksFirst = true ∧ Gen.FactsC09.multiClockReads = 1 := by decide
 
 end Filter
+
+/-! ### second part of the tie by translation (Extension resil): `Gen.FactsC09IRb`
+
+The filter's `Handle`, the MQTT proxy's `newLimiter` / `Limiter.acquirePermission` and the util limiter's
+`SetState`, re-translated from their bodies on every run (proofs: `Proofs/RateLimiterIRb.lean`). -/
+section IRb
+open EgVerif.RateLimiterFilter
+
+/-- the filter's `Handle` = the model's `handle` (`us` = per URL rule: does it match, its limiter id) -/
+theorem handle_regenerated_from_source (now : Nat → Int) (cancelled : Bool) (us : List (Bool × Option Nat))
+    (h0 : Heap) :
+    Gen.FactsC09IRb.extractionFailed = false ∧
+    Gen.FactsC09IRb.handleIR now cancelled us h0 = handle now (us.map (·.1)) (us.map (·.2)) h0 :=
+  ⟨by decide, RateLimiterFilter.handle_regenerated_from_source now cancelled us h0⟩
+
+theorem newLimiter_regenerated_from_source (spec : Option RateLimitSpec) :
+    Gen.FactsC09IRb.extractionFailed = false ∧ Gen.FactsC09IRb.newLimiterIR spec = newLimiter spec :=
+  ⟨by decide, RateLimiter.newLimiter_regenerated_from_source spec⟩
+
+theorem limiterAcquire_regenerated_from_source (lm : Option (MPolicy × MRL)) (lq lb : Option (Policy × RL))
+    (now byteNum : Int) :
+    Gen.FactsC09IRb.extractionFailed = false ∧
+    (let r := Gen.FactsC09IRb.limiterAcquireIR lm lq lb now byteNum
+     (ofFields r.1.1 r.1.2.1 r.1.2.2, r.2)) = (ofFields lm lq lb).acquire now byteNum :=
+  ⟨by decide, RateLimiter.limiterAcquire_regenerated_from_source lm lq lb now byteNum⟩
+
+theorem setState_regenerated_from_source (s : RL) (cur st : Nat) :
+    Gen.FactsC09IRb.extractionFailed = false ∧ Gen.FactsC09IRb.setStateIR s cur st = setState s cur st :=
+  ⟨by decide, RateLimiter.setState_regenerated_from_source s cur st⟩
+
+/-- two rules, the first does not match, the second matches and its limiter (id 7, limit 1, one token
+already taken, timeout 0) refuses: 429 from rule 2 only; a nil limiter on a matching rule panics -/
+example :
+    let heap : Heap := [(7, ⟨⟨1, 1000, 0⟩, ⟨0, 1⟩⟩)]
+    (Gen.FactsC09IRb.handleIR (fun _ => 0) false [(false, some 3), (true, some 7)] heap).map (·.2) =
+      some ⟨"rateLimited", some 429, some 7, 0⟩ ∧
+    Gen.FactsC09IRb.handleIR (fun _ => 0) false [(true, none)] heap = none ∧
+    Gen.FactsC09IRb.newLimiterIR (some ⟨5, 0, 0⟩) = Limiter.request ⟨5, 1000000000, 0⟩ init := by
+  decide
+
+end IRb
+
+/-! ### waiting requests whose client goes away (Extension resil, second round) -/
+section Cancel
+open EgVerif.RateLimiterFilter
+
+/-- counting only part of a history (e.g. the admitted requests that were *not* cancelled while they
+waited) never counts more than the whole history -/
+theorem cnt_filter_le (P : Int) (h : Hist) (q : Int × Out → Bool) (c : Int) :
+    cnt P (h.filter q) c ≤ cnt P h c := by
+  unfold cnt
+  induction h with
+  | nil => simp
+  | cons e t ih =>
+    simp only [List.filter_cons]
+    by_cases hq : q e = true
+    · simp only [hq, if_true, List.filter_cons]
+      split
+      · simp only [List.length_cons]; omega
+      · exact ih
+    · simp only [hq, Bool.false_eq_true, if_false]
+      split
+      · simp only [List.length_cons]; omega
+      · exact ih
+
+/-- **Cancelled waiters never make a period over-full.** The filter leaves the limiter exactly as it is
+when a waiting request's client goes away (`handleIR … cancelled = true` and `= false` are the same
+function — `handle_regenerated_from_source` — so the reservation stays where it was made); the requests
+that really are released are a sub-history of the reservations, hence at most `L` of them per period, for
+every arrival pattern and whichever waiters are cancelled. (What the `wait` judge checks on the observed
+release times.) -/
+theorem cancelled_waiters_keep_cycle_bound {p : Policy} (wf : p.WF) {s h lo} (r : Reach p s h lo)
+    (notCancelled : Int × Out → Bool) (c : Int) :
+    cnt p.P (h.filter notCancelled) c ≤ p.L.toNat :=
+  Nat.le_trans (cnt_filter_le p.P h notCancelled c) (cycle_bound wf r c)
+
+theorem cancel_keeps_reservation (now : Nat → Int) (us : List (Bool × Option Nat)) (h0 : Heap) :
+    Gen.FactsC09IRb.handleIR now true us h0 = Gen.FactsC09IRb.handleIR now false us h0 := by
+  rw [(handle_regenerated_from_source now true us h0).2, (handle_regenerated_from_source now false us h0).2]
+
+/-- L = 1: A at once, B waits for period 1, C for period 2; B's client goes away; E is then given period 3
+— not B's or C's slot (`run` is the model, whose state a cancellation does not touch) -/
+example : (run ⟨1, 40, 160⟩ init [(0, 1), (0, 1), (0, 1), (1, 1)]).map (fun o => (o.permitted, o.wait)) =
+    [(true, 0), (true, 40), (true, 80), (true, 119)] := by decide
+
+end Cancel
 
 end EgVerif.C09
